@@ -180,3 +180,251 @@ Example C15_hypotheses_satisfiable :
   selfadjoint R2Space A2 /\ A2 (1, 0) <> ip0 R2Space.
 Proof. exact (conj A2_selfadjoint A2_e1_nonzero). Qed.
 Print Assumptions C15_hypotheses_satisfiable.
+
+(* ===================================================================================================
+   ADDED (model/Alg2.v, proofs/Stopping2.v): the early-stop statements for NewtonsMethod, GerchbergSaxton,
+   PDHG with array-valued step sizes, and PDHG's step-adaptation branches -- supersedes the "NOT proved"
+   remark above for these four items (ADMM / AltMin have no early stop). *)
+From SV Require Import model.Alg2 proofs.Stopping2 proofs.CGFinite proofs.RnSpace.
+
+(* the three additional overrides obey the driver laws (any operations record), so C15_driver_bound /
+   C15_driver_interleaving apply to them.  (NewtonsMethod: for updates that do not raise ValueError.) *)
+Theorem C15_laws_NewtonsMethod :
+  forall (E : IPOps) gradf inv_hessf beta f slt sgt fuel,
+    AlgLaws (NMClass E gradf inv_hessf beta f slt sgt fuel) (fun s => sleb (nm_residual s) (nm_tol s)).
+Proof. exact NM_laws. Qed.
+Theorem C15_laws_GerchbergSaxton :
+  forall (E : IPOps) sabs cphase A AH y lamb,
+    AlgLaws (GSClass E sabs cphase A AH y lamb) (fun s => sleb (gs_residual s) (gs_tol s)).
+Proof. exact GS_laws. Qed.
+Theorem C15_laws_PDHG_array_steps :
+  forall (E : IPOps) U uadd usub uscale udivs udot xmul xdiv xsqrt umul udiv usqrt A AH proxfc proxg theta0 gp gd sgt0 seq0,
+    AlgLaws (PDHGAClass E U uadd usub uscale udivs udot xmul xdiv xsqrt umul udiv usqrt
+                        A AH proxfc proxg theta0 gp gd sgt0 seq0)
+            (fun s => sleb (pa_resid E U s) (pa_tol E U s)).
+Proof. exact PDHGA_laws. Qed.
+Print Assumptions C15_laws_NewtonsMethod.
+Print Assumptions C15_laws_GerchbergSaxton.
+Print Assumptions C15_laws_PDHG_array_steps.
+
+(* [core] NewtonsMethod: residual = lamda2 ** 0.5 with lamda2 = <inv_hessf(x)(g), g>, g = gradf(x).  If the inverse
+   Hessian at x is self-adjoint positive definite, residual = 0 (no ValueError) means g = 0, and the update left x
+   unchanged -- whatever beta, f and the comparisons of the backtracking loop are *)
+Theorem C15_newton_resid_zero_stationary :
+  forall (H : IPSpace) (gradf : ipV H -> ipV H) (inv_hessf : ipV H -> ipV H -> ipV H) (beta : R)
+         (f : ipV H -> R) (slt sgt : R -> R -> bool) (ls_fuel : nat) (s : nm_state (ops_of H)),
+    let C := NMClass (ops_of H) gradf inv_hessf beta f slt sgt ls_fuel in
+    selfadjoint H (inv_hessf (nm_x s)) -> posdef H (inv_hessf (nm_x s)) ->
+    nm_raised (update C s) = false ->
+    nm_residual (update C s) = 0 ->
+    gradf (nm_x s) = ip0 H /\ nm_x (update C s) = nm_x s /\ nm_lamda2 (update C s) = 0.
+Proof. exact newton_resid_zero_stationary. Qed.
+Print Assumptions C15_newton_resid_zero_stationary.
+
+(* ... and it is a genuine fixed point: one more update does not raise, leaves x unchanged, residual = 0 again *)
+Theorem C15_newton_early_stop_fixed :
+  forall (H : IPSpace) (gradf : ipV H -> ipV H) (inv_hessf : ipV H -> ipV H -> ipV H) (beta : R)
+         (f : ipV H -> R) (slt sgt : R -> R -> bool) (ls_fuel : nat) (s : nm_state (ops_of H)),
+    let C := NMClass (ops_of H) gradf inv_hessf beta f slt sgt ls_fuel in
+    (forall a c, slt a c = true -> a < c) ->
+    selfadjoint H (inv_hessf (nm_x s)) -> posdef H (inv_hessf (nm_x s)) ->
+    nm_raised (update C s) = false ->
+    nm_residual (update C s) = 0 ->
+    nm_raised (update C (update C s)) = false /\
+    nm_x (update C (update C s)) = nm_x (update C s) /\
+    nm_residual (update C (update C s)) = 0.
+Proof. exact newton_early_stop_fixed. Qed.
+Print Assumptions C15_newton_early_stop_fixed.
+
+(* [core] GerchbergSaxton's stop rule as coded: residual = sum_i | |(A x)_i| - y_i |; `residual <= tol` with tol = 0
+   holds EXACTLY when every observed amplitude is matched, |(A x)_i| = y_i (entries are (re, im) pairs,
+   cabs (re, im) = sqrt(re^2 + im^2)) *)
+Theorem C15_gs_stop_iff_amplitudes_match :
+  forall (H : IPSpace) (cphase : R * R -> R * R) (A : ipV H -> list (R * R)) (AH : list (R * R) -> ipV H)
+         (y : list R) (lamb : R) (s : gs_state (ops_of H)),
+    let C := GSClass (ops_of H) Rabs cphase A AH y lamb in
+    gs_residual (update C s) <= 0 <->
+    (forall w yi, In (w, yi) (combine (A (gs_x (update C s))) y) -> cabs (ops_of H) w = yi).
+Proof. exact gs_stop_iff_amplitudes_match. Qed.
+Print Assumptions C15_gs_stop_iff_amplitudes_match.
+
+(* ... and with lamb = 0 such a stop is a fixed point of the whole update (y_hat = A x, so x solves the inner normal
+   equations and ConjugateGradient(system, b, x, max_iter=5) stops before its first update).  With lamb <> 0 the
+   stop rule says nothing about the Tikhonov term: x solves the inner system only if lamb * x = 0. *)
+Theorem C15_gs_stop_fixed :
+  forall (H : IPSpace) (cphase : R * R -> R * R) (A : ipV H -> list (R * R)) (AH : list (R * R) -> ipV H)
+         (y : list R) (lamb : R),
+    (forall v, length (A v) = length y) ->
+    (forall w, cscale (ops_of H) (cabs (ops_of H) w) (cphase w) = w) ->
+    forall s : gs_state (ops_of H),
+      let C := GSClass (ops_of H) Rabs cphase A AH y lamb in
+      lamb = 0 ->
+      gs_residual (update C s) <= 0 ->
+      gs_x (update C (update C s)) = gs_x (update C s) /\
+      gs_residual (update C (update C s)) = gs_residual (update C s).
+Proof. exact gs_stop_fixed. Qed.
+Print Assumptions C15_gs_stop_fixed.
+
+(* [core] PDHG with array-valued step sizes.  [EltOps H] = elementwise *, /, **0.5 on the arrays of H with
+   "every entry > 0" ([epos]) such that d / t**0.5 = 0 forces d = 0 for positive t, and positivity is kept by
+   multiplying / dividing by a positive scalar (instances: R, products, R^n -- C15_array_steps_satisfiable).
+   resid = 0  ==>  neither x nor u moved *)
+Theorem C15_pdhg_array_resid_zero_no_move :
+  forall (HX HU : IPSpace) (OX : EltOps HX) (OU : EltOps HU) (A : ipV HX -> ipV HU) (AH : ipV HU -> ipV HX)
+         (proxfc : ipV HU -> ipV HU -> ipV HU) (proxg : ipV HX -> ipV HX -> ipV HX)
+         (theta0 gamma_primal gamma_dual : R) (sgt0 seq0 : R -> bool),
+    let C := PDHGAClass (ops_of HX) (ipV HU) (ipadd HU) (ipsub HU) (ipscale HU) (ipdivs HU) (ipdot HU)
+                        (emul OX) (ediv OX) (esqrt OX) (emul OU) (ediv OU) (esqrt OU)
+                        A AH proxfc proxg theta0 gamma_primal gamma_dual sgt0 seq0 in
+    forall s : pdhga_state (ops_of HX) (ipV HU),
+      epos OU (pa_sigma (ops_of HX) (ipV HU) s) -> epos OX (pa_tau (ops_of HX) (ipV HU) (update C s)) ->
+      pa_resid (ops_of HX) (ipV HU) (update C s) = 0 ->
+      pa_x (ops_of HX) (ipV HU) (update C s) = pa_x (ops_of HX) (ipV HU) s /\
+      pa_u (ops_of HX) (ipV HU) (update C s) = pa_u (ops_of HX) (ipV HU) s /\
+      pa_x_ext (ops_of HX) (ipV HU) (update C s) = pa_x (ops_of HX) (ipV HU) (update C s).
+Proof. exact pdhga_resid_zero_no_move. Qed.
+Print Assumptions C15_pdhg_array_resid_zero_no_move.
+
+(* ... positivity of the (array) steps is an invariant of update() through all three branches of the step-size
+   adaptation, so along the whole run from positive steps: resid = 0 ==> nothing moved.  Only `a > 0 implies 0 < a`
+   is assumed of the Python comparison *)
+Theorem C15_pdhg_array_run_no_move :
+  forall (HX HU : IPSpace) (OX : EltOps HX) (OU : EltOps HU) (A : ipV HX -> ipV HU) (AH : ipV HU -> ipV HX)
+         (proxfc : ipV HU -> ipV HU -> ipV HU) (proxg : ipV HX -> ipV HX -> ipV HX)
+         (theta0 gamma_primal gamma_dual : R) (sgt0 seq0 : R -> bool),
+    (forall a, sgt0 a = true -> 0 < a) ->
+    let C := PDHGAClass (ops_of HX) (ipV HU) (ipadd HU) (ipsub HU) (ipscale HU) (ipdivs HU) (ipdot HU)
+                        (emul OX) (ediv OX) (esqrt OX) (emul OU) (ediv OU) (esqrt OU)
+                        A AH proxfc proxg theta0 gamma_primal gamma_dual sgt0 seq0 in
+    forall (s0 : pdhga_state (ops_of HX) (ipV HU)) (k : nat),
+      epos OX (pa_tau (ops_of HX) (ipV HU) s0) -> epos OU (pa_sigma (ops_of HX) (ipV HU) s0) ->
+      0 < pa_tau_min (ops_of HX) (ipV HU) s0 -> 0 < pa_sigma_min (ops_of HX) (ipV HU) s0 ->
+      let sk := iter_update C k s0 in
+      (epos OX (pa_tau (ops_of HX) (ipV HU) sk) /\ epos OU (pa_sigma (ops_of HX) (ipV HU) sk) /\
+       0 < pa_tau_min (ops_of HX) (ipV HU) sk /\ 0 < pa_sigma_min (ops_of HX) (ipV HU) sk) /\
+      (pa_resid (ops_of HX) (ipV HU) (update C sk) = 0 ->
+       pa_x (ops_of HX) (ipV HU) (update C sk) = pa_x (ops_of HX) (ipV HU) sk /\
+       pa_u (ops_of HX) (ipV HU) (update C sk) = pa_u (ops_of HX) (ipV HU) sk /\
+       pa_x_ext (ops_of HX) (ipV HU) (update C sk) = pa_x (ops_of HX) (ipV HU) (update C sk)).
+Proof. exact pdhga_run_no_move. Qed.
+Print Assumptions C15_pdhg_array_run_no_move.
+
+(* [core] scalar steps, the step-adaptation branches spelled out: theta = 1/sqrt(1 + 2 gamma tau_min) lies in (0,1)
+   when gamma_primal > 0 (resp. gamma_dual > 0), tau *= theta, sigma /= theta (resp. the other way round) *)
+Theorem C15_pdhg_adapt_branches :
+  forall (HX HU : IPSpace) (A : ipV HX -> ipV HU) (AH : ipV HU -> ipV HX)
+         (proxfc : R -> ipV HU -> ipV HU) (proxg : R -> ipV HX -> ipV HX)
+         (theta0 gamma_primal gamma_dual : R) (sgt0 seq0 : R -> bool),
+    (forall a, sgt0 a = true -> 0 < a) ->
+    let C := PDHGClass (ops_of HX) (ipV HU) (ipadd HU) (ipsub HU) (ipscale HU) (ipdivs HU) (ipdot HU)
+                       A AH proxfc proxg theta0 gamma_primal gamma_dual sgt0 seq0 in
+    forall s : pdhg_state (ops_of HX) (ipV HU),
+      let px := pd_x (ops_of HX) (ipV HU) in
+      let ptau := pd_tau (ops_of HX) (ipV HU) in
+      let psigma := pd_sigma (ops_of HX) (ipV HU) in
+      let ptaumin := pd_tau_min (ops_of HX) (ipV HU) in
+      let psigmamin := pd_sigma_min (ops_of HX) (ipV HU) in
+      0 < ptaumin s -> 0 < psigmamin s ->
+      exists th : R,
+        pd_x_ext (ops_of HX) (ipV HU) (update C s)
+        = ipadd HX (px (update C s)) (ipscale HX th (ipsub HX (px (update C s)) (px s))) /\
+        ((sgt0 gamma_primal && seq0 gamma_dual = true /\ 0 < th < 1 /\
+          th = 1 / sqrt (1 + (1 + 1) * gamma_primal * ptaumin s) /\
+          ptau (update C s) = ptau s * th /\ psigma (update C s) = psigma s / th /\
+          ptaumin (update C s) = ptaumin s * th /\ psigmamin (update C s) = psigmamin s)
+         \/
+         (sgt0 gamma_primal && seq0 gamma_dual = false /\ seq0 gamma_primal && sgt0 gamma_dual = true /\ 0 < th < 1 /\
+          th = 1 / sqrt (1 + (1 + 1) * gamma_dual * psigmamin s) /\
+          ptau (update C s) = ptau s / th /\ psigma (update C s) = psigma s * th /\
+          ptaumin (update C s) = ptaumin s /\ psigmamin (update C s) = psigmamin s * th)
+         \/
+         (sgt0 gamma_primal && seq0 gamma_dual = false /\ seq0 gamma_primal && sgt0 gamma_dual = false /\
+          th = theta0 /\
+          ptau (update C s) = ptau s /\ psigma (update C s) = psigma s /\
+          ptaumin (update C s) = ptaumin s /\ psigmamin (update C s) = psigmamin s)).
+Proof. exact pdhg_adapt_branches. Qed.
+Print Assumptions C15_pdhg_adapt_branches.
+
+(* [core] ... so the steps stay positive and the implication resid = 0 ==> nothing moved survives adaptation,
+   at every update of the run *)
+Theorem C15_pdhg_adapt_run_no_move :
+  forall (HX HU : IPSpace) (A : ipV HX -> ipV HU) (AH : ipV HU -> ipV HX)
+         (proxfc : R -> ipV HU -> ipV HU) (proxg : R -> ipV HX -> ipV HX)
+         (theta0 gamma_primal gamma_dual : R) (sgt0 seq0 : R -> bool),
+    (forall a, sgt0 a = true -> 0 < a) ->
+    let C := PDHGClass (ops_of HX) (ipV HU) (ipadd HU) (ipsub HU) (ipscale HU) (ipdivs HU) (ipdot HU)
+                       A AH proxfc proxg theta0 gamma_primal gamma_dual sgt0 seq0 in
+    forall (s0 : pdhg_state (ops_of HX) (ipV HU)) (k : nat),
+      0 < pd_tau (ops_of HX) (ipV HU) s0 -> 0 < pd_sigma (ops_of HX) (ipV HU) s0 ->
+      0 < pd_tau_min (ops_of HX) (ipV HU) s0 -> 0 < pd_sigma_min (ops_of HX) (ipV HU) s0 ->
+      let sk := iter_update C k s0 in
+      (0 < pd_tau (ops_of HX) (ipV HU) sk /\ 0 < pd_sigma (ops_of HX) (ipV HU) sk /\
+       0 < pd_tau_min (ops_of HX) (ipV HU) sk /\ 0 < pd_sigma_min (ops_of HX) (ipV HU) sk) /\
+      (pd_resid (ops_of HX) (ipV HU) (update C sk) = 0 ->
+       pd_x (ops_of HX) (ipV HU) (update C sk) = pd_x (ops_of HX) (ipV HU) sk /\
+       pd_u (ops_of HX) (ipV HU) (update C sk) = pd_u (ops_of HX) (ipV HU) sk /\
+       pd_x_ext (ops_of HX) (ipV HU) (update C sk) = pd_x (ops_of HX) (ipV HU) (update C sk)).
+Proof. exact pdhg_run_no_move. Qed.
+Print Assumptions C15_pdhg_adapt_run_no_move.
+
+(* [core] fixed point WITH step adaptation.  The next update uses different step sizes, so this needs the defining
+   property of a proximal map: its fixed-point relation u = prox_{s f}(u + s v) does not depend on s > 0
+   (prox_step_independent; it holds e.g. for the identity prox, C15_array_steps_satisfiable).  Then an update from an
+   un-extrapolated point with resid = 0 is followed by an update that moves neither x nor u *)
+Theorem C15_pdhg_adapt_early_stop_fixed :
+  forall (HX HU : IPSpace) (A : ipV HX -> ipV HU) (AH : ipV HU -> ipV HX)
+         (proxfc : R -> ipV HU -> ipV HU) (proxg : R -> ipV HX -> ipV HX)
+         (theta0 gamma_primal gamma_dual : R) (sgt0 seq0 : R -> bool),
+    (forall a, sgt0 a = true -> 0 < a) ->
+    let C := PDHGClass (ops_of HX) (ipV HU) (ipadd HU) (ipsub HU) (ipscale HU) (ipdivs HU) (ipdot HU)
+                       A AH proxfc proxg theta0 gamma_primal gamma_dual sgt0 seq0 in
+    forall s : pdhg_state (ops_of HX) (ipV HU),
+      (forall s1 s2 u v, 0 < s1 -> 0 < s2 ->
+         proxfc s1 (ipadd HU u (ipscale HU s1 v)) = u -> proxfc s2 (ipadd HU u (ipscale HU s2 v)) = u) ->
+      (forall s1 s2 x v, 0 < s1 -> 0 < s2 ->
+         proxg s1 (ipadd HX x (ipscale HX s1 v)) = x -> proxg s2 (ipadd HX x (ipscale HX s2 v)) = x) ->
+      0 < pd_tau (ops_of HX) (ipV HU) s -> 0 < pd_sigma (ops_of HX) (ipV HU) s ->
+      0 < pd_tau_min (ops_of HX) (ipV HU) s -> 0 < pd_sigma_min (ops_of HX) (ipV HU) s ->
+      pd_x_ext (ops_of HX) (ipV HU) s = pd_x (ops_of HX) (ipV HU) s ->
+      pd_resid (ops_of HX) (ipV HU) (update C s) = 0 ->
+      pd_x (ops_of HX) (ipV HU) (update C (update C s)) = pd_x (ops_of HX) (ipV HU) (update C s) /\
+      pd_u (ops_of HX) (ipV HU) (update C (update C s)) = pd_u (ops_of HX) (ipV HU) (update C s).
+Proof. exact pdhg_adapt_early_stop_fixed. Qed.
+Print Assumptions C15_pdhg_adapt_early_stop_fixed.
+
+(* non-vacuity of the added hypotheses: an elementwise structure with a positive array exists on R^n for every n;
+   a unit-phase function exists; the identity prox is step independent *)
+Example C15_array_steps_satisfiable :
+  (forall n : nat, epos (EltRn n) (ones n)) /\
+  (forall (H : IPSpace) (w : R * R), cscale (ops_of H) (cabs (ops_of H) w) (cphaseR w) = w) /\
+  (forall V : IPSpace, forall s1 s2 u v, 0 < s1 -> 0 < s2 ->
+     (fun (_ : R) (z : ipV V) => z) s1 (ipadd V u (ipscale V s1 v)) = u ->
+     (fun (_ : R) (z : ipV V) => z) s2 (ipadd V u (ipscale V s2 v)) = u).
+Proof. exact (conj ones_pos (conj cphaseR_spec id_prox_step_independent)). Qed.
+Print Assumptions C15_array_steps_satisfiable.
+
+(* [core] array-valued steps, fixed point (with or without step adaptation): if the fixed-point relations of the two
+   proximal callables do not depend on the positive array step, an update from an un-extrapolated point with
+   resid = 0 is followed by an update that moves neither x nor u *)
+Theorem C15_pdhg_array_early_stop_fixed :
+  forall (HX HU : IPSpace) (OX : EltOps HX) (OU : EltOps HU) (A : ipV HX -> ipV HU) (AH : ipV HU -> ipV HX)
+         (proxfc : ipV HU -> ipV HU -> ipV HU) (proxg : ipV HX -> ipV HX -> ipV HX)
+         (theta0 gamma_primal gamma_dual : R) (sgt0 seq0 : R -> bool),
+    (forall a, sgt0 a = true -> 0 < a) ->
+    let C := PDHGAClass (ops_of HX) (ipV HU) (ipadd HU) (ipsub HU) (ipscale HU) (ipdivs HU) (ipdot HU)
+                        (emul OX) (ediv OX) (esqrt OX) (emul OU) (ediv OU) (esqrt OU)
+                        A AH proxfc proxg theta0 gamma_primal gamma_dual sgt0 seq0 in
+    forall s : pdhga_state (ops_of HX) (ipV HU),
+      (forall t1 t2 u v, epos OU t1 -> epos OU t2 ->
+         proxfc t1 (ipadd HU u (emul OU t1 v)) = u -> proxfc t2 (ipadd HU u (emul OU t2 v)) = u) ->
+      (forall t1 t2 x w, epos OX t1 -> epos OX t2 ->
+         proxg t1 (ipadd HX x (emul OX (ipscale HX (- (1)) t1) w)) = x ->
+         proxg t2 (ipadd HX x (emul OX (ipscale HX (- (1)) t2) w)) = x) ->
+      epos OX (pa_tau (ops_of HX) (ipV HU) s) -> epos OU (pa_sigma (ops_of HX) (ipV HU) s) ->
+      0 < pa_tau_min (ops_of HX) (ipV HU) s -> 0 < pa_sigma_min (ops_of HX) (ipV HU) s ->
+      pa_x_ext (ops_of HX) (ipV HU) s = pa_x (ops_of HX) (ipV HU) s ->
+      pa_resid (ops_of HX) (ipV HU) (update C s) = 0 ->
+      pa_x (ops_of HX) (ipV HU) (update C (update C s)) = pa_x (ops_of HX) (ipV HU) (update C s) /\
+      pa_u (ops_of HX) (ipV HU) (update C (update C s)) = pa_u (ops_of HX) (ipV HU) (update C s).
+Proof. exact pdhga_early_stop_fixed. Qed.
+Print Assumptions C15_pdhg_array_early_stop_fixed.
